@@ -456,9 +456,53 @@ fn gen_v6_ext(t: &mut Tape, kind: u8, next: u8, intent: &mut Intent) -> Vec<u8> 
             .min(255);
             let mut out = vec![next, lf as u8];
             let body = units * 8 + 6;
-            let k = body.min(16);
-            out.extend(t.bytes(k));
-            out.extend(std::iter::repeat(0xee).take(body - k));
+            if t.chance(1, 3) {
+                // structured option area (RFC 8200 4.2 TLVs): jumbo payload (RFC 2675, 0xC2 0x04 + 32 bit
+                // length below / at / above what really follows), router alert, PadN, Pad1, unknown
+                // types with every action/change bit, lying option lengths
+                intent.perturb.push(format!("ext{}:tlv-options", kind));
+                let mut area: Vec<u8> = vec![];
+                if t.chance(1, 2) {
+                    let jl: u32 = match t.weighted(&[3, 2, 2, 2, 1]) {
+                        0 => t.below(2048) as u32,
+                        1 => 65_536 + t.below(64) as u32,
+                        2 => t.below(64) as u32,
+                        3 => u32::MAX - t.below(4) as u32,
+                        _ => 0,
+                    };
+                    area.extend_from_slice(&[0xc2, 0x04]);
+                    area.extend_from_slice(&jl.to_be_bytes());
+                }
+                while area.len() < body {
+                    match t.weighted(&[3, 3, 2, 2, 1]) {
+                        0 => area.push(0), // Pad1
+                        1 => {
+                            let n = t.below(6);
+                            area.push(1);
+                            area.push(n as u8);
+                            area.extend(std::iter::repeat(0).take(n));
+                        }
+                        2 => area.extend_from_slice(&[0x05, 0x02, 0x00, t.u8()]), // router alert
+                        3 => {
+                            let n = t.below(8);
+                            area.push(t.u8());
+                            area.push(n as u8);
+                            area.extend(t.bytes(n));
+                        }
+                        _ => {
+                            // option length pointing behind the header
+                            area.push(t.u8());
+                            area.push(t.u8_corner());
+                        }
+                    }
+                }
+                area.truncate(body);
+                out.extend(area);
+            } else {
+                let k = body.min(16);
+                out.extend(t.bytes(k));
+                out.extend(std::iter::repeat(0xee).take(body - k));
+            }
             out
         }
     }
